@@ -119,7 +119,7 @@ Lemma freeS_ext n F T FM TM F' T' FM' TM' nodes ER nodes' ER' fl cnt :
              F' j = F j /\ T' j = T j /\ FM' j = FM j /\ TM' j = TM j) ->
   freeS n F T FM TM nodes ER fl cnt -> freeS n F' T' FM' TM' nodes' ER' fl cnt.
 Proof.
-  intros Hu Hext [H1 H2 H3 H4 H5 H6 H7 H8].
+  intros Hu Hext [H1 H2 H3 H4 H5 H6 H7 H8 H9].
   destruct (Hext 0 (or_introl eq_refl)) as [E1 [E2 [E3 E4]]].
   assert (Hfree : forall s, In s fl -> 0 < s < n /\ ~ used nodes ER s).
   { intros s Hs. destruct (H7 s Hs) as [Hr [_ [Ha Hb]]]. split; [assumption|]. unfold used; tauto. }
@@ -138,12 +138,16 @@ Proof.
     { intros Hi. apply Hu in Hi. destruct Hi; contradiction. }
     destruct (Hext s) as [-> [-> [-> ->]]]; [right; split; assumption|].
     apply H8; auto; intros Hi; apply Hnu; [left|right]; assumption.
+  - intros Hn s Hr Ha Hb.
+    assert (Hnu : ~ used nodes ER s).
+    { intros Hi. apply Hu in Hi. destruct Hi; contradiction. }
+    apply H9; auto; intros Hi; apply Hnu; [left|right]; assumption.
 Qed.
 
 Lemma freeS_cnt n F T FM TM nodes ER fl cnt c :
   freeS n F T FM TM nodes ER fl cnt -> freeS n F T FM (upd TM 0 c) nodes ER fl c.
 Proof.
-  intros [H1 H2 H3 H4 H5 H6 H7 H8]. constructor; try assumption.
+  intros [H1 H2 H3 H4 H5 H6 H7 H8 H9]. constructor; try assumption.
   - apply upd_same.
   - intros s Hr Ha Hb. rewrite upd_other by lia. auto.
 Qed.
@@ -152,7 +156,7 @@ Lemma freeS_alloc_pop n F T FM TM nodes ER x rest cnt :
   freeS n F T FM TM nodes ER (x :: rest) cnt ->
   freeS n F T (upd (upd FM 0 (FM x)) x 0) TM (x :: nodes) ER rest cnt.
 Proof.
-  intros [H1 H2 H3 H4 H5 H6 H7 H8].
+  intros [H1 H2 H3 H4 H5 H6 H7 H8 H9].
   destruct (H7 x (or_introl eq_refl)) as [Hxr [Hxm [Hxn Hxe]]].
   cbn [fchain] in H5. destruct H5 as [Hx H5].
   apply NoDup_cons_iff in H6. destruct H6 as [Hxf H6].
@@ -167,15 +171,20 @@ Proof.
   - intros s Hr Ha Hb.
     assert (s <> x) by (intros ->; apply Ha; left; reflexivity).
     rewrite !upd_other by lia. apply H8; auto. intros Hi. apply Ha. right. assumption.
+  - intros Hn s Hr Ha Hb.
+    assert (s <> x) by (intros ->; apply Ha; left; reflexivity).
+    destruct (H9 Hn s Hr) as [E|Hi]; [intros Hi; apply Ha; right; assumption|assumption|congruence|assumption].
 Qed.
 
 Lemma freeS_alloc_grow n F T FM TM nodes ER cnt :
   1 <= n -> freeS n F T FM TM nodes ER [] cnt -> freeS (n + 1) F T FM TM (n :: nodes) ER [] cnt.
 Proof.
-  intros Hn [H1 H2 H3 H4 H5 H6 H7 H8]. constructor; try assumption.
+  intros Hn [H1 H2 H3 H4 H5 H6 H7 H8 H9]. constructor; try assumption.
   - intros s [].
   - intros s Hr Ha Hb. assert (s <> n) by (intros ->; apply Ha; left; reflexivity).
     apply H8; [lia| |assumption]. intros Hi. apply Ha. right. assumption.
+  - intros Hn' s Hr Ha Hb. assert (s <> n) by (intros ->; apply Ha; left; reflexivity).
+    apply H9; [lia|lia| |assumption]. intros Hi. apply Ha. right. assumption.
 Qed.
 
 Lemma freeS_free n F T FM TM nodes ER nodes' ER' fl cnt s :
@@ -184,7 +193,7 @@ Lemma freeS_free n F T FM TM nodes ER nodes' ER' fl cnt s :
   freeS n (upd F s 0) (upd T s 0) (upd (upd FM s (FM 0)) 0 (- s)) (upd TM s 0) nodes' ER'
         (if - s =? i64_min then [] else s :: fl) cnt.
 Proof.
-  intros [H1 H2 H3 H4 H5 H6 H7 H8] Hs Hus Hu.
+  intros [H1 H2 H3 H4 H5 H6 H7 H8 H9] Hs Hus Hu.
   assert (Hsf : ~ In s fl).
   { intros Hi. destruct (H7 s Hi) as [_ [_ [Ha Hb]]]. destruct Hus; contradiction. }
   assert (Hneg : fhead fl < 0).
@@ -221,4 +230,12 @@ Proof.
         destruct Hx; [assumption|contradiction].
       * intros Hi. apply Hb. assert (Hx : used nodes' ER' j) by (apply Hu; split; [right|]; assumption).
         destruct Hx; [contradiction|assumption].
+  - intros Hn j Hr Ha Hb.
+    destruct (Z.eqb_spec (- s) i64_min) as [E|E]; [unfold i64_min in E; lia|].
+    destruct (Z.eq_dec j s) as [->|Hne]; [left; reflexivity|right].
+    apply H9; auto.
+    + intros Hi. apply Ha. assert (Hx : used nodes' ER' j) by (apply Hu; split; [left|]; assumption).
+      destruct Hx; [assumption|contradiction].
+    + intros Hi. apply Hb. assert (Hx : used nodes' ER' j) by (apply Hu; split; [right|]; assumption).
+      destruct Hx; [contradiction|assumption].
 Qed.
